@@ -153,8 +153,19 @@ func fan(c *core.Ctx, fn, dm *core.Fn) {
 		})
 		return found
 	}
-	deferred := func(n ast.Node) bool { d, ok := n.(*ast.DeferStmt); return ok && sendsToken(d.Call) }
 	direct := func(n ast.Node) bool { s, ok := n.(*ast.SendStmt); return ok && core.ObjOf(info, s.Chan) == group }
+	deferred := func(n ast.Node) bool {
+		d, ok := n.(*ast.DeferStmt)
+		if !ok || !sendsToken(d.Call) {
+			return false
+		}
+		if fl, isLit := d.Call.Fun.(*ast.FuncLit); isLit { // defer func() { ... group <- x ... }(): the send must be on every path of the literal
+			gd := cfgq.OfLit(c.Program, info, fl)
+			okAll, _ := c07.MustPass(gd, gd.Entry(), false, direct)
+			return okAll
+		}
+		return true
+	}
 	okTok, w := c07.MustPass(gw, gw.Entry(), false, cfgq.Or(deferred, direct))
 	if okTok {
 		// a deferred token must be registered before decoderMain can panic/return: it must dominate the call
